@@ -2,15 +2,16 @@ package main
 
 // C18 — Environment values reach sandbox shells verbatim.
 //
+// goatcore emits every value as a single-quoted assignment word  K='..'  (' written '\\'').
 // Three comparisons per generated environment:
 //   L1  bytes of the script produced by goatcore (dcmd.InitSequence / sshsb initSequence)
-//       vs the Coq builders (CSsh / CDcmd cases; order of the map iteration and the random tag
-//       are parsed out of the produced script and handed to the model; the WHOLE script is compared)
+//       vs the Coq builders (CSsh / CDcmd cases; order of the map iteration and, for dcmd's
+//       certificate block, the random tag are parsed out of the produced script and handed to the model; the WHOLE script is compared)
 //   L2  the script is fed to the real /bin/sh; every variable printed with printf %s must equal the
-//       configured value minus trailing newlines; no unexpected file, HOME / SENTINEL untouched
+//       configured value EXACTLY (trailing newlines included), under /bin/sh and bash; no unexpected file, HOME / SENTINEL untouched
 //   MV  model validation: what /bin/sh did vs what the mini-sh of Model/Shell.v does on the same
-//       bytes (CSh cases), including scripts with an UNQUOTED delimiter (the pre-fix sshsb shape)
-//       and "what if the random tag equals a line of the value" scripts.
+//       bytes; plus the harness' own HERE-DOCUMENT scripts (the shapes goatcore used before: unquoted
+//       delimiter, value line equal to the tag) for the here-document part of the mini-sh.
 
 import (
 	"bytes"
@@ -43,6 +44,7 @@ var c18Alphabet = []byte{'$', '`', '"', '\'', '\\', '\n', 'E', 'O', 'F', '(', ')
 type shEnv struct {
 	dir, bin, work, home string
 	shIsBash             bool
+	bash                 string // path of bash when it exists and is not /bin/sh
 }
 
 func newShEnv() *shEnv {
@@ -61,6 +63,9 @@ func newShEnv() *shEnv {
 	}
 	if t, err := filepath.EvalSymlinks("/bin/sh"); err == nil && strings.Contains(filepath.Base(t), "bash") {
 		e.shIsBash = true
+	}
+	if p, err := exec.LookPath("bash"); err == nil {
+		e.bash = p
 	}
 	return e
 }
@@ -95,12 +100,16 @@ func probeScript(keys []string) string {
 }
 
 func (e *shEnv) run(script []byte, nprobes int) shResult {
+	return e.runWith("/bin/sh", script, nprobes)
+}
+
+func (e *shEnv) runWith(shell string, script []byte, nprobes int) shResult {
 	os.RemoveAll(e.work)
 	os.RemoveAll(filepath.Join(e.home, ".ssh"))
 	must(os.MkdirAll(e.work, 0o755))
 	ctx, cancel := context.WithTimeout(context.Background(), 20*time.Second)
 	defer cancel()
-	cmd := exec.CommandContext(ctx, "/bin/sh")
+	cmd := exec.CommandContext(ctx, shell)
 	cmd.Dir = e.work
 	cmd.Env = []string{"HOME=" + e.home, "PATH=" + e.bin, "SENTINEL=sentinel-value"}
 	cmd.Stdin = bytes.NewReader(script)
@@ -189,11 +198,11 @@ func buildDcmd(e commservices.Environments) (o buildObs) {
 	return buildObs{Kind: "ok", Script: string(b)}
 }
 
-// parseScript recovers the iteration order of the map and the random tag from a produced script.
-func parseScript(script string, env map[string]string) (order []string, tag string, quoted bool, rest string, ok bool) {
-	quoted = true
+// parseScript recovers the iteration order of the map from a produced script
+// (shape: header, then per variable  K='<value, ' as '\”>'  newline  export K  newline).
+func parseScript(script string, env map[string]string) (order []string, rest string, ok bool) {
 	if !strings.HasPrefix(script, c18Header) {
-		return nil, "", true, "", false
+		return nil, "", false
 	}
 	pos := len(c18Header)
 	remaining := map[string]bool{}
@@ -203,41 +212,27 @@ func parseScript(script string, env map[string]string) (order []string, tag stri
 	for len(remaining) > 0 {
 		found := ""
 		for k := range remaining {
-			if strings.HasPrefix(script[pos:], k+"=$(cat <<") {
+			if strings.HasPrefix(script[pos:], k+"=") {
 				found = k
 				break
 			}
 		}
 		if found == "" {
-			return order, tag, quoted, script[pos:], false
+			return order, script[pos:], false
 		}
-		p := pos + len(found) + len("=$(cat <<")
-		nl := strings.IndexByte(script[p:], '\n')
-		if nl < 0 {
-			return order, tag, quoted, script[pos:], false
-		}
-		word := script[p : p+nl]
-		t, q := word, false
-		if len(word) >= 2 && word[0] == '\'' && word[len(word)-1] == '\'' {
-			t, q = word[1:len(word)-1], true
-		}
-		if tag == "" {
-			tag, quoted = t, q
-		} else if t != tag || q != quoted {
-			return order, tag, quoted, script[pos:], false
-		}
-		block := found + "=$(cat <<" + word + "\n" + env[found] + "\n" + tag + "\n)\nexport " + found + "\n"
+		block := found + "='" + strings.ReplaceAll(env[found], "'", "'\\''") + "'\nexport " + found + "\n"
 		if !strings.HasPrefix(script[pos:], block) {
-			return order, tag, quoted, script[pos:], false
+			return order, script[pos:], false
 		}
 		pos += len(block)
 		order = append(order, found)
 		delete(remaining, found)
 	}
-	return order, tag, quoted, script[pos:], true
+	return order, script[pos:], true
 }
 
-// the harness' own builder (used for the unquoted / what-if model-validation scripts only)
+// the harness' own here-document builder (the shape goatcore used before; model validation of the
+// here-document part of the mini-sh only: unquoted delimiter and tag-collision scripts)
 func ownScript(list []kv, tag string, quoted bool, tail string) string {
 	var sb strings.Builder
 	sb.WriteString(c18Header)
@@ -476,7 +471,7 @@ func (c *c18) oracle(kind string, list []kv, res shResult, desc map[string]inter
 		return false
 	}
 	for i, e := range list {
-		if string(res.Values[i]) != trimNL(e.V) {
+		if string(res.Values[i]) != e.V { // exactly: trailing newlines included
 			o.Fail("verbatim", fmt.Sprintf("%s: variable %s configured as %q reached the shell as %q", kind, e.K, e.V, res.Values[i]), "verbatim", desc)
 			ok = false
 			break
@@ -532,7 +527,7 @@ func (c *c18) runEnv(kind string, m map[string]string, pub, sec string) {
 		o.Fail("builder_total", kind+": the builder returned "+b.Kind, "builder", desc)
 		return
 	}
-	order, tag, quoted, rest, ok := parseScript(b.Script, m)
+	order, rest, ok := parseScript(b.Script, m)
 	list := sorted
 	if ok {
 		list = make([]kv, len(order))
@@ -542,19 +537,17 @@ func (c *c18) runEnv(kind string, m map[string]string, pub, sec string) {
 	} else {
 		o.Stat("script_shape_unrecognised")
 	}
-	if !quoted {
-		o.Stat("script_delimiter_unquoted")
-	}
-	if tag == "" && kind == "dcmd" {
+	tag := ""
+	if kind == "dcmd" { // the random tag survives only in the certificate block
 		if i := strings.Index(rest, "cat <<"); i >= 0 {
 			if j := strings.Index(rest[i:], " >> "); j >= 0 {
 				tag = rest[i+6 : i+j]
 			}
 		}
-	}
-	if tag == "" {
-		tag = c18DummyTag // no variable and no certificate: the tag does not occur in the script
-		o.Stat("tag_unobservable")
+		if tag == "" {
+			tag = c18DummyTag // no certificate: the tag does not occur in the script
+			o.Stat("tag_unobservable")
+		}
 	}
 	key := kind + ":" + pub + "|" + sec
 	for _, e := range sorted {
@@ -574,14 +567,15 @@ func (c *c18) runEnv(kind string, m map[string]string, pub, sec string) {
 		o.Stat("value_" + c18ValueClass(e.V))
 	}
 	c.oracle(kind, sorted, res, desc)
+	if c.sh.bash != "" && !c.sh.shIsBash { // the same script through bash as well (L2 only)
+		bres := c.sh.runWith(c.sh.bash, []byte(full), len(probeKeys))
+		c.nsh++
+		o.Stat("bash_runs")
+		c.oracle(kind+"(bash)", sorted, bres, desc)
+	}
 	ran := c.shresTerm(sorted, res)
 	if kind == "ssh" {
-		o.AddCase(fmt.Sprintf("CSsh %s %s %s %s %s", coqEnv(list), coqStr(tag), coqStr(entry), coqStr(b.Script), ran), desc, "b:"+key, nontrivial)
-		for _, e := range sorted { // independent statement of the guard of newEOFTag
-			if strings.Contains(e.V, tag) {
-				o.Fail("tag_fresh", "sshsb: the chosen terminator occurs in the value of "+e.K, "tag", desc)
-			}
-		}
+		o.AddCase(fmt.Sprintf("CSsh %s %s %s %s", coqEnv(list), coqStr(entry), coqStr(b.Script), ran), desc, "b:"+key, nontrivial)
 	} else {
 		o.AddCase(fmt.Sprintf("CDcmd %s %s %s %s true %s %s %s", coqEnv(list), coqStr(tag), coqStr(pub), coqStr(sec), coqStr(b.Script), coqStr(probes), ran), desc, "b:"+key, nontrivial)
 	}
@@ -647,32 +641,28 @@ func (c *c18) runOwn(list []kv, tag string, quoted bool, label string) shResult 
 	return res
 }
 
-func (c *c18) randomValue() string {
+// values for the harness' own HERE-DOCUMENT scripts (validation of the here-document part of the
+// mini-sh against /bin/sh): the dash defect described at c18DashQuirk is kept out of these
+func (c *c18) randomHeredocValue() string {
 	for {
-		if v := c.randomValue1(); !c18DashQuirk(v) {
+		if v := c.randomValue(); !c18DashQuirk(v) {
 			return v
 		}
-		c.o.Stat("generator_skipped_dash_highbyte_pattern")
+		c.o.Stat("heredoc_mv_skipped_dash_highbyte_pattern")
 	}
 }
 
-func (c *c18) randomValue1() string {
+func (c *c18) randomValue() string {
 	rng := c.rng
 	toks := []string{"$HOME", "${HOME}", "$(echo pwn)", "`echo pwn`", "$(: > canary)", "`: > canary`", "\\", "\\\\", "\\$", "\\`", "\n", "\n", "EOF", "EOF\n", "\nEOF\n",
 		"'", "\"", "$", "a", " ", "x y", "$SENTINEL", "$UNSET", "${UNSET}", ";", "&", "|", ">", "#", "~", "*", "\r", "\t", ")", "(", "$((1+1))", "${HOME:-x}", "$1", "$$", "\n)\n",
 		c18DummyTag, "=", "%s", "\\n", "-e", "é", "\xff", "\x80", "$(", "`", "${", "EOFA", "export X=1", "HOME=/x", "\nHOME=/x\n", "\n: > canary\n"}
-	if !c.sh.shIsBash {
-		toks = append(toks, "\x01", "\x7f", "\x01\x01", "\x01\x7f")
-	}
+	toks = append(toks, "\x01", "\x7f", "\x01\x01", "\x01\x7f")
 	var sb strings.Builder
 	n := 1 + rng.Intn(8)
 	for i := 0; i < n && sb.Len() < 60; i++ {
 		if rng.Chance(15) {
-			ch := byte(1 + rng.Intn(255))
-			if c.sh.shIsBash && (ch == 1 || ch == 0x7f) {
-				ch = 'b'
-			}
-			sb.WriteByte(ch)
+			sb.WriteByte(byte(1 + rng.Intn(255)))
 		} else {
 			sb.WriteString(toks[rng.Intn(len(toks))])
 		}
@@ -703,7 +693,7 @@ func runC18(o *Out, rng *RNG, tier string, replay string) {
 	o.Rule = "environments: (1) every value over {$,`,\",',\\,NL,E,O,F,(,),a,H} up to the tier's length (exhaustive), many variables per script, both builders; " +
 		"(2) 1-5 variables with random values up to 60 bytes (shell tokens, multi-line, EOF lines, trailing backslash, bytes 0x01-0xff), both builders, " +
 		"dcmd also with SSH certificates and the certificate error cases; every generated script is fed to the real /bin/sh and the variables printed. " +
-		"(3) model validation of the mini-sh: the same scripts, plus scripts with an UNQUOTED delimiter (pre-fix shape) and tag-collision what-if scripts, real /bin/sh vs mini-sh. " +
+		"each also through bash when present (L2). (3) model validation of the mini-sh: the same scripts, plus the harness' own HERE-DOCUMENT scripts (the shapes goatcore used before: unquoted delimiter, tag collision), real /bin/sh vs mini-sh. " +
 		"(4) names: every key over {A,a,_,1,-,SP,=,NL} up to length 3 through Set, random maps through SetAll. " +
 		"Non-trivial: at least one variable / a key that is not empty; distinct by builder + map + certificate, by script bytes, by key."
 	c := &c18{o: o, rng: rng, sh: newShEnv()}
@@ -822,7 +812,7 @@ func runC18(o *Out, rng *RNG, tier string, replay string) {
 			}
 			v = string(b)
 		} else {
-			v = c.randomValue()
+			v = c.randomHeredocValue()
 		}
 		list := []kv{{"P", "plain"}, {"K", v}}
 		if rng.Chance(30) {
@@ -838,67 +828,25 @@ func runC18(o *Out, rng *RNG, tier string, replay string) {
 		o.Stat("witness_unquoted_reproduced_on_bin_sh")
 	}
 
-	// dedicated probe of the dash quirk described at c18DashQuirk, one per builder, minimal witness;
-	// a corrupted value is a property failure with signature "dash_highbyte" (known finding)
-	for _, kind := range []string{"ssh", "dcmd"} {
-		v := "E\xc3\xa9"
-		m := map[string]string{"A": v}
-		e, _ := newEnvs(m, "", "")
-		var b buildObs
-		if kind == "ssh" {
-			b = buildSsh(e, probeScript([]string{"A"}))
-		} else {
-			b = buildDcmd(e)
-			b.Script += probeScript([]string{"A"}) + "\n"
-		}
-		if b.Kind != "ok" {
-			continue
-		}
-		res := c.sh.run([]byte(b.Script), 1)
-		c.nsh++
-		o.CountEval("quirk:"+kind, true)
-		if res.Kind == "ran" && res.Complete && string(res.Values[0]) == v {
-			o.Stat("sh_quirk_highbyte_after_tag_prefix_absent")
-		} else {
-			o.Stat("sh_quirk_highbyte_after_tag_prefix_CORRUPTS_VALUE")
-			var got []byte
-			if len(res.Values) > 0 {
-				got = res.Values[0]
-			}
-			o.Fail("verbatim_sh", fmt.Sprintf("%s: variable A configured as %q reached /bin/sh (%v) as %q: the shell drops a byte >= 0x80 that follows a prefix of the here-document delimiter at the start of a line", kind, v, o.Extra["bin_sh"], got),
-				"dash_highbyte", map[string]interface{}{"op": "env", "kind": kind, "env": descEnv([]kv{{"A", v}}), "pub": []int{}, "sec": []int{}})
-		}
+	// the values that broke the here-document builders, as ordinary cases (both builders, L1 + L2 + MV)
+	for _, m := range []map[string]string{
+		{"A": "E\xc3\xa9"},
+		{"A": "E\xc3\xa9\n\n", "B": "'", "C": "EOF\nEOF", "D": "\x01\x01\x7f\x01\x7f", "E": "x\nEOF\xff y\n"},
+		{"A": c18DummyTag + "\n: > canary\ncat <<'" + c18DummyTag + "'", "B": "'\n: > canary\n'", "C": "\\'; : > canary; '"},
+		{"A": "\n", "B": "\n\n\n", "C": "a\n", "D": ""},
+	} {
+		c.runEnv("ssh", m, "", "")
+		c.runEnv("dcmd", m, "", "")
 	}
 
-	// tag collision what-if (dcmd does not compare its tag with the values): take the script goatcore
-	// produced, substitute the tag the value anticipates for the random one, run it
-	for wi, v := range []string{c18DummyTag + "\n: > canary\ncat <<'" + c18DummyTag + "'", c18DummyTag + "\n: > canary", "x\n" + c18DummyTag + "\n: > canary\ncat <<'" + c18DummyTag + "'\ny"} {
-		m := map[string]string{"A": v}
-		e, _ := newEnvs(m, "", "")
-		b := buildDcmd(e)
-		if b.Kind != "ok" {
-			continue
-		}
-		_, tag, _, _, ok := parseScript(b.Script, m)
-		if !ok {
-			continue
-		}
-		script := strings.ReplaceAll(b.Script, tag, c18DummyTag) + probeScript([]string{"A"}) + "\n"
-		res := c.sh.run([]byte(script), 1)
-		c.nsh++
-		if res.Kind != "ran" {
-			continue
-		}
-		if res.Canary {
-			o.Stat("collision_whatif_breakout_confirmed_on_bin_sh")
+	// here-document tag collision (why dcmd no longer uses here-documents): mini-sh vs /bin/sh on the
+	// harness' own quoted here-document scripts whose value contains a line equal to the tag
+	for _, v := range []string{c18DummyTag + "\n: > canary\ncat <<'" + c18DummyTag + "'", c18DummyTag + "\n: > canary", "x\n" + c18DummyTag + "\n: > canary\ncat <<'" + c18DummyTag + "'\ny"} {
+		res := c.runOwn([]kv{{"A", v}}, c18DummyTag, true, "heredoc_collision")
+		if res.Kind == "ran" && res.Canary {
+			o.Stat("heredoc_collision_breakout_confirmed_on_bin_sh")
 		} else {
-			o.Stat("collision_whatif_NO_breakout")
-		}
-		if res.Complete && wi == 0 { // clean witness: nothing the injected commands print ends up in A
-			c.shCase(script, []kv{{"A", v}}, true, res)
-		} else {
-			o.AddCase(fmt.Sprintf("CShCanary %s %s %s", coqPairs(c.sh.initStore()), coqStr(script), coqBool(res.Canary)),
-				map[string]interface{}{"op": "sh_canary", "script": byteList([]byte(script))}, "shc:"+script, true)
+			o.Stat("heredoc_collision_NO_breakout")
 		}
 	}
 	o.Extra["sh_invocations"] = c.nsh
